@@ -160,7 +160,7 @@ func TestC49_StopAnywhere(t *testing.T) {
 			s.settle()
 
 			nsteps := rapid.IntRange(3, 45).Draw(rt, "nsteps")
-			ops := []string{"tun", "tun", "tun", "tun", "deliver", "deliver", "flush", "flush", "drop", "advance", "advance", "close", "rehandshake", "reload", "stop", "stop"}
+			ops := []string{"tun", "tun", "tun", "tun", "deliver", "deliver", "flush", "flush", "drop", "advance", "advance", "close", "rehandshake", "reload", "stop", "stop", "punchStorm"}
 			for step := 0; step < nsteps; step++ {
 				op := rapid.SampledFrom(ops).Draw(rt, "op")
 				switch op {
@@ -190,6 +190,25 @@ func TestC49_StopAnywhere(t *testing.T) {
 						stop(x, "right-after-reload")
 					}
 					s.settle()
+				case "punchStorm":
+					// queued lighthouse work: what a burst of punch notifications leaves behind - many delayed
+					// punch jobs waiting on their timers (1 s by default) when the node is stopped
+					x := nsPickLive(rt, w, "storm.node")
+					if x < 0 {
+						continue
+					}
+					n := rapid.SampledFrom([]int{1, 10, 63, 64, 65, 100, 200}).Draw(rt, "storm.n")
+					py := w.nodes[x].ctrl.f.lightHouse.punchy
+					for k := 0; k < n; k++ {
+						y := k % len(w.specs)
+						py.Schedule(netip.AddrPortFrom(w.specs[y].udp.Addr(), uint16(20000+k)), w.specs[y].nets[0].Addr())
+					}
+					s.settle()
+					h.note("punch storm at %s: %d delayed punch jobs queued", w.nodes[x].name, n)
+					phaseLabels = append(phaseLabels, "punch-jobs-queued")
+					if rapid.IntRange(0, 1).Draw(rt, "stopAfterStorm") == 0 {
+						stop(x, "with-queued-punch-jobs")
+					}
 				case "stop":
 					if rapid.IntRange(0, 4).Draw(rt, "stopAll") == 0 {
 						for i := range w.nodes {
